@@ -197,6 +197,22 @@ def run(ctx):
         ctx.ok('R-UNTOUCHED', 'store', where, 'every variable: copyVariable(..., withdata=False) then [...] = %s (outside any dimension test)' % run_name)
     else:
         ctx.violation(Finding('R-UNTOUCHED', RP, Q, vl, 'not every variable is copied and assigned the running value at the end of the loop body: variables without the named dimensions are missing or empty in the result'))
+    # ---- R-RESDTYPE: the output variable takes the type of the computed values (the mean of integers is not an integer)
+    ctx.rule('R-RESDTYPE', 'the output variable of applyAlongDimensions is created with the dtype of the computed values, not with that of the input variable')
+    for c in copyv[:1]:
+        if getattr(api.stmt_of(c), '_parent', None) is not vl:
+            continue
+        dt = kw(c, 'dtype')
+        if dt is None and len(c.args) > 2:
+            dt = c.args[2]
+        dtn = norm(dt) if dt is not None else None
+        if dtn in ('%s.dtype' % run_name, '%s.dtype.char' % run_name, '%s.dtype.str' % run_name, 'np.asarray(%s).dtype' % run_name, 'np.asanyarray(%s).dtype' % run_name):
+            ctx.ok('R-RESDTYPE', 'store', where, 'copyVariable(..., dtype=%s)' % dtn)
+        elif dt is None:
+            ctx.violation(Finding('R-RESDTYPE', RP, Q, api.stmt_of(c), 'the output variable is created with the type of the input variable and the result is cast into it: the mean (std, a convolution) '
+                                  'of an integer variable is truncated to integers ([1, 2] -> 1 instead of 1.5)'))
+        else:
+            ctx.violation(Finding('R-RESDTYPE', RP, Q, api.stmt_of(c), 'the output variable is created with dtype %s, not with the dtype of the computed values %s' % (dtn, run_name)))
     # on every path of the per-axis loop body on which the running value is replaced, the dimension was found among the named ones
     unguarded, nrepl, skipped = None, 0, None
     if inner or idxloop is not None:
